@@ -1224,6 +1224,11 @@ func runCfg(res *results, cluster *fakecql.Cluster, j *job, starLocal, starPeers
 	for pi := range j.row.Proxies {
 		ps := &j.row.Proxies[pi]
 		o := env.Options{Cluster: cluster, Hooks: false, DC: ps.Config.DC, Tokens: cc.toks(ps.Config.Tokens), Tracer: nullTracer}
+		if ps.Config.RPC == 0 {
+			// without rpc-address the local node's address is the address the client connected to: the proxy listens
+			// on every local address and is asked through two of them, one after the other
+			o.ListenIP = "0.0.0.0"
+		}
 		if ps.Config.RPC != 0 {
 			o.RPCAddr = cc.addrs[ps.Config.RPC].String()
 			if cc.respl {
@@ -1246,39 +1251,50 @@ func runCfg(res *results, cluster *fakecql.Cluster, j *job, starLocal, starPeers
 		}
 		res.note("start", sig(cc.feats), true, nil)
 		res.count("proxies_started", 1)
-		func() {
-			defer e.Close()
-			cl, err := e.StartedClient(primitive.ProtocolVersion4, "")
-			if err != nil {
-				res.infra("client: " + err.Error())
-				return
-			}
-			cl.Quiet = true
-			defer cl.Close()
-			listen := netip.MustParseAddrPort(e.Addr).Addr()
-			r := &runner{res: res, cc: cc, ps: ps, e: e, cl: cl, listen: listen}
-			if len(ps.Local) != 1 {
-				panic("specification row without exactly one local node")
-			}
-			r.local = cc.node(ps.Local[0], listen)
-			for _, n := range ps.Peers {
-				r.peers = append(r.peers, cc.node(n, listen))
-			}
-			r.feats = append(append([]string{}, cc.feats...), proxyFeats(j.row, ps)...)
-			r.starView(starLocal, starPeers)
-			if r.starOK {
-				views[r.proxyName()] = r.ringView
-				order = append(order, r.proxyName())
-				// the local row of the star view is this proxy
-				res.count("ring_views", 1)
-			}
-			// value checks for the star rows themselves and the assigned selects
-			r.runSelect(starLocal, true)
-			r.runSelect(starPeers, true)
-			for _, s := range j.sels[ps.Addr] {
-				r.runSelect(s, true)
-			}
-		}()
+		via := []string{e.Addr}
+		if ps.Config.RPC == 0 {
+			port := netip.MustParseAddrPort(e.Addr).Port()
+			via = []string{fmt.Sprintf("127.0.0.1:%d", port), fmt.Sprintf("127.0.0.3:%d", port)}
+		}
+		for vi, addr := range via {
+			e.Addr = addr
+			last := vi == len(via)-1
+			func() {
+				if last {
+					defer e.Close()
+				}
+				cl, err := e.StartedClient(primitive.ProtocolVersion4, "")
+				if err != nil {
+					res.infra("client: " + err.Error())
+					return
+				}
+				cl.Quiet = true
+				defer cl.Close()
+				listen := netip.MustParseAddrPort(e.Addr).Addr()
+				r := &runner{res: res, cc: cc, ps: ps, e: e, cl: cl, listen: listen}
+				if len(ps.Local) != 1 {
+					panic("specification row without exactly one local node")
+				}
+				r.local = cc.node(ps.Local[0], listen)
+				for _, n := range ps.Peers {
+					r.peers = append(r.peers, cc.node(n, listen))
+				}
+				r.feats = append(append([]string{}, cc.feats...), proxyFeats(j.row, ps)...)
+				r.starView(starLocal, starPeers)
+				if r.starOK && last {
+					views[r.proxyName()] = r.ringView
+					order = append(order, r.proxyName())
+					// the local row of the star view is this proxy
+					res.count("ring_views", 1)
+				}
+				// value checks for the star rows themselves and the assigned selects
+				r.runSelect(starLocal, true)
+				r.runSelect(starPeers, true)
+				for _, s := range j.sels[ps.Addr] {
+					r.runSelect(s, true)
+				}
+			}()
+		}
 	}
 	res.count("configurations", 1)
 	// (a proxy without ring view has already been reported by the check that failed for it)
